@@ -1434,7 +1434,30 @@ fn run_gen(j: &str, c: &mut Cur<'_>) -> Option<String> {
     Some(format!("qe={} qa={} qf={} re={} rf={} out={}", w.qe, w.qa, w.qf, w.re, w.rf, out))
 }
 
+/// `feat …`: answered by the side binary of ../harness_c05gz (tonic with `gzip` + `zstd` only), one process per case
+fn execute_feat(case: &str) -> String {
+    let rel = "harness_c05gz/target/debug/c05gz";
+    let mut roots: Vec<std::path::PathBuf> = Vec::new();
+    if let Ok(exe) = std::env::current_exe() {
+        // <root>/harness/target/debug/harness
+        if let Some(r) = exe.ancestors().nth(4) {
+            roots.push(r.to_path_buf());
+        }
+    }
+    roots.push(std::path::Path::new(env!("CARGO_MANIFEST_DIR")).join(".."));
+    let Some(bin) = roots.into_iter().map(|r| r.join(rel)).find(|p| p.is_file()) else {
+        return "side-binary-missing".into();
+    };
+    match std::process::Command::new(bin).args(case.split(' ')).output() {
+        Ok(o) if o.status.success() => String::from_utf8_lossy(&o.stdout).trim().to_string(),
+        _ => "side-process-died".into(),
+    }
+}
+
 pub fn execute(case: &str) -> String {
+    if case.starts_with("feat ") {
+        return execute_feat(case);
+    }
     let mut c = Cur { t: case.split(' ').filter(|s| !s.is_empty()).collect(), i: 0 };
     // `x.<knobs> <inner case>`: the inner case with dimensions turned that must make no difference
     x::set(x::Knobs::default());
@@ -1900,8 +1923,20 @@ fn cli_random(rng: &mut Rng) -> String {
 }
 
 pub fn generate(tier: &str, rng: &mut Rng) -> Vec<String> {
+    let mut feat_cases: Vec<String> = Vec::new();
+    // a build of tonic with gzip + zstd only (side crate harness_c05gz, seed C05i)
+    for snd in ["-", "g", "z"] {
+        for acc in ["-", "g", "z", "gz"] {
+            for a in ["-", "gzip", "deflate", "zstd", "identity", "deflate,zstd", "zstd,gzip", "gzip,_deflate", "br", "identity,deflate"] {
+                feat_cases.push(format!("feat srv {} {} A {} E -", snd, acc, a));
+            }
+            for e in ["gzip", "deflate", "zstd", "identity", "br"] {
+                feat_cases.push(format!("feat srv {} {} A gzip,deflate,zstd E {}", snd, acc, e));
+            }
+        }
+    }
     let thorough = tier == "thorough";
-    let mut out: Vec<String> = Vec::new();
+    let mut out: Vec<String> = feat_cases;
 
     // ---- corpus: DESIGN §5.4 witness and neighbours (first known token not enabled for sending)
     for (snd, av) in [("g", "zstd,gzip"), ("g", "zstd"), ("d", "gzip, deflate"), ("gz", "deflate,zstd,gzip"), ("z", "gzip,deflate"), ("g", "deflate , gzip")] {
